@@ -321,6 +321,17 @@ theorem rel_watchesRemove (fd : Nat) (p : Path) : Rel R (watchesRemove fd p) := 
   intro s
   exact Rel.bind f (rel_modify F _ (fun _ => Or.inr ⟨p, rfl⟩) (fun _ => rfl)) (fun _ => Rel.pure f _)
 
+theorem rel_rmErr (e : FsErr) (info : KW) (name : Path) : Rel R (rmErr e info name) := by
+  have f := F.toAdd
+  unfold rmErr
+  refine Rel.bind f (rel_get f) ?_
+  intro s
+  split
+  · exact Rel.pure f _
+  · refine Rel.bind f (rel_closeFd f _) ?_
+    intro _
+    exact Rel.bind f (rel_watchesRemove F _ _) (fun _ => Rel.pure f _)
+
 theorem rel_rm (fuel : Nat) : ∀ name unwatch, Rel R (rm fuel name unwatch) := by
   have f := F.toAdd
   induction fuel with
@@ -341,7 +352,7 @@ theorem rel_rm (fuel : Nat) : ∀ name unwatch, Rel R (rm fuel name unwatch) := 
     · refine Rel.bind f (rel_registerDelete F _) ?_
       intro r
       cases r with
-      | error e => exact Rel.pure f _
+      | error e => exact rel_rmErr F _ _ _
       | ok u =>
         refine Rel.bind f (rel_closeFd f _) ?_
         intro _
